@@ -48,6 +48,11 @@ fn dispatch(a: &[String]) -> String {
                 None => "None".to_string(),
             }
         }
+        "hash_to_point" => {
+            let n: usize = a[1].parse().unwrap();
+            let p = crate::polynomial::hash_to_point(&hex_decode(&a[2]), n);
+            join(&p.coefficients.iter().map(|f| crate::falcon_field::verif_hook::raw(*f)).collect::<Vec<_>>())
+        }
         "compress" => {
             let l: usize = a[1].parse().unwrap();
             match crate::encoding::compress(&ints::<i16>(&a[2]), l) {
